@@ -138,6 +138,7 @@ def shards(tier, seed):
         add('d=3: single-deviation option settings x 4 grade blocks (3 small blocks in Algebra(3))', spaces.cfg_pqr(2, 0, 1), [o for o in opts if deviations(o) == 1 and o['symcls'] != 'sympy'], 'four')
         for c in [spaces.cfg_pqr(4, 0, 0), spaces.cfg_pqr(3, 0, 1), spaces.NAMED['2DPGA'], spaces.NAMED['3DPGA'], spaces.cfg_pqr(5, 0, 0)]:
             add('basis blades under single-deviation option settings: d=4,5 and named custom bases', c, [o for o in opts if deviations(o) == 1 and o['symcls'] != 'sympy'], 'none')
+        add('d=4 PGA: graded mode x 3 small grade blocks', spaces.cfg_pqr(3, 0, 1), [o for o in opts if deviations(o) == 1 and o['graded']], 'three')
         add('d=3: single-deviation option settings x 4 grade blocks (3 small blocks in Algebra(3))', spaces.cfg_pqr(3, 0, 0), [o for o in opts if deviations(o) == 1 and o['symcls'] != 'sympy'], 'three')
     else:
         nons = [o for o in opts if o['symcls'] != 'sympy']
